@@ -93,6 +93,26 @@ def scn_progress(p, res):
     res.require_floor(38)
 
 
+@rule('SCN-ESCAPE', 'N', 'a scanning loop that consumes an escape character also consumes the character after it before it looks at the input again')
+def scn_escape(p, res):
+    an = analysis(p)
+    for (r, q, construct), it in sorted(an.report.items.items(), key=lambda kv: (kv[0][1], kv[0][2])):
+        if r == 'SCN-ESCAPE':
+            res.bad(F('SCN-ESCAPE', it['func'], it['node'], construct, it['message'], details=['path : ' + it['trace']] if it['trace'] else []))
+    bad_funcs = {q for (r, q, _) in an.report.items if r == 'SCN-ESCAPE'}
+    for q, ln in sorted(an.esc_sites):
+        if q not in bad_funcs:
+            res.ok('%s: escape character consumed at line %d, the next character is consumed on every path to the next look at the input' % (q[6:], ln))
+    res.stats['escape_sites'] = len(an.esc_sites)
+    res.require_floor(2)
+
+
+@rule('SCN-BLIND', 'N', 'no scanning loop starts an iteration by stepping over a character it has not looked at')
+def scn_blind(p, res):
+    _emit(p, res, 'SCN-BLIND')
+    res.require_floor(10)
+
+
 @rule('SCN-SKIP', 'N', 'a scanning loop never consumes a character and then skips the next one unexamined in the same iteration')
 def scn_skip(p, res):
     _emit(p, res, 'SCN-SKIP')
